@@ -3,6 +3,7 @@
 -/
 import SettlusModel.Proofs.Tally
 import SettlusModel.Properties.C10
+import SettlusModel.Proofs.Dec
 namespace Settlus.C05
 open Settlus
 
@@ -149,5 +150,13 @@ example :
     alGet (acceptedOwners cl [b 0 "x", b 1 "x"] 3) n = none ∧
     alGet (acceptedOwners cl [b 0 "x", b 1 "x", b 2 "x", b 3 "y"] 3) n = some "x".toList ∧
     dedupBallots [b 0 "x", b 0 "x", b 0 "x"] [] = [b 0 "x"] := by decide
+
+
+/-! ### the threshold the code computes -/
+
+/-- the expression of `EndBlocker`, translated from the source on every run (`VoteThreshold.MulInt64(total).Ceil().TruncateInt()`
+over the cosmos-sdk fixed-point operations), is the ceiling the theorems above are about -/
+theorem threshold_is_the_code (thr total : Nat) :
+    GenDec.thresholdVotes (thr : Int) (total : Int) = ((thresholdVotes thr total : Nat) : Int) := thresholdVotes_translated thr total
 
 end Settlus.C05
